@@ -22,6 +22,24 @@ from harness import dexasm
 from harness.dexasm import (DexBuilder, Field, Method, Code, FieldRef, MethodRef, StringRef, TypeRef,
                             OPCODES, MNEMONICS, FORMAT_UNITS, REF_KIND)
 
+# hand-modelled functions (normalised-AST hashes in gen/pins.json; same literal list in harness/props/c13..c16.py)
+_A = "androguard/core/analysis/analysis.py"
+PINS = [(_A, "Analysis.add"), (_A, "Analysis.create_xref"), (_A, "Analysis._create_xref"),
+        (_A, "Analysis._resolve_method"), (_A, "Analysis._resolve_field"), (_A, "Analysis.get_call_graph"),
+        (_A, "Analysis.get_field_analysis"), (_A, "Analysis.get_fields"), (_A, "Analysis.find_methods"),
+        (_A, "ClassAnalysis.add_method"), (_A, "ClassAnalysis.add_field"),
+        (_A, "ClassAnalysis.add_field_xref_read"), (_A, "ClassAnalysis.add_field_xref_write"),
+        (_A, "ClassAnalysis.add_method_xref_to"), (_A, "ClassAnalysis.add_method_xref_from"),
+        (_A, "ClassAnalysis.add_xref_to"), (_A, "ClassAnalysis.add_xref_from"),
+        (_A, "ClassAnalysis.add_xref_new_instance"), (_A, "ClassAnalysis.add_xref_const_class"),
+        (_A, "ClassAnalysis.get_field_analysis"),
+        (_A, "MethodAnalysis.add_xref_to"), (_A, "MethodAnalysis.add_xref_from"),
+        (_A, "MethodAnalysis.add_xref_read"), (_A, "MethodAnalysis.add_xref_write"),
+        (_A, "MethodAnalysis.add_xref_new_instance"), (_A, "MethodAnalysis.add_xref_const_class"),
+        (_A, "FieldAnalysis.add_xref_read"), (_A, "FieldAnalysis.add_xref_write"),
+        (_A, "StringAnalysis.add_xref_from"), (_A, "REF_TYPE"),
+        ("androguard/core/dex/__init__.py", "DEX.get_encoded_field_descriptor")]
+
 SECTIONS = ["classes", "methods", "callTo", "callFrom", "clsTo", "clsFrom", "cg", "fields", "fRead", "fWrite",
             "mRead", "mWrite", "strings", "strFrom", "newInstM", "newInstC", "constClsM", "constClsC"]
 PROP_SECTIONS = {
@@ -655,7 +673,242 @@ def work(args):
     return idx, reqs, real, fails, _stats(views[0][1]), len(views)
 
 
-def load_corpus(prop):
+# --------------------------------------------------------------------------- history stream (renames)
+# Between `Analysis.add` of each DEX and `create_xref()` the supported rename API may be used
+# (EncodedField.set_name, EncodedMethod.set_name).  The expectation is fixed from the unchanged code:
+# create_xref works with the names as they are when it runs; a rename changes the declaration and
+# every reference to that very field_id / method_id *inside the same DEX* (array receivers `[LC;->m`,
+# equal strings, other items with the same name and references from other DEX files keep their text).
+# Renames after create_xref() are a control: the relations stay, only the keys print the new name.
+# Not generated (behaviour of the unchanged code is itself defective or undefined there, see
+# HISTORY_PROBES): EncodedMethod.set_name between add and create_xref, ClassDefItem.set_name.
+
+def _ren_key(r):
+    return (r["cls"], r["name"], r["type"]) if r["kind"] == "field" else (r["cls"], r["name"], r["ret"], tuple(r["params"]))
+
+
+def apply_renames(prog, renames):
+    """the program as it reads after the renames (per-DEX rule above); a copy"""
+    import copy
+    q = copy.deepcopy(prog)
+    for r in renames:
+        d = q[r["dex"]]
+        for c in d["classes"]:
+            if r["kind"] == "field":
+                if c["name"] == r["cls"]:
+                    for f in c["fields"]:
+                        if f[0] == r["name"] and f[1] == r["type"]:
+                            f[0] = r["new"]
+            else:
+                if c["name"] == r["cls"]:
+                    for m in c["methods"]:
+                        if m["name"] == r["name"] and m["ret"] == r["ret"] and list(m["params"]) == list(r["params"]):
+                            m["name"] = r["new"]
+            for m in c["methods"]:
+                for it in (m["code"] or []):
+                    ref = it[1]
+                    if ref is None:
+                        continue
+                    if r["kind"] == "field" and ref[0] == "f" and (ref[1], ref[2], ref[3]) == (r["cls"], r["name"], r["type"]):
+                        ref[2] = r["new"]
+                    if (r["kind"] == "method" and ref[0] == "m" and
+                            (ref[1], ref[2], ref[3], list(ref[4])) == (r["cls"], r["name"], r["ret"], list(r["params"]))):
+                        ref[2] = r["new"]
+    return q
+
+
+def gen_history(rng, prog, order):
+    """1..3 renames of distinct defined items, preferring items that are referenced from their own DEX;
+    when = 'before' (before any add) | ['at', k] (after the k-th add, k >= position of the item's DEX) | 'after'"""
+    items = []
+    for di, d in enumerate(prog):
+        refs = set()
+        for c in d["classes"]:
+            for m in c["methods"]:
+                for it in (m["code"] or []):
+                    if it[1] is not None and it[1][0] == "f":
+                        refs.add(("f", it[1][1], it[1][2], it[1][3]))
+                    if it[1] is not None and it[1][0] == "m":
+                        refs.add(("m", it[1][1], it[1][2], it[1][3], tuple(it[1][4])))
+        for c in d["classes"]:
+            for f in c["fields"]:
+                w = 6 if ("f", c["name"], f[0], f[1]) in refs else 1
+                items.append((w, {"kind": "field", "dex": di, "cls": c["name"], "name": f[0], "type": f[1]}))
+            for m in c["methods"]:
+                if m["name"] == "<init>":
+                    continue
+                w = 3 if ("m", c["name"], m["name"], m["ret"], tuple(m["params"])) in refs else 1
+                items.append((w, {"kind": "method", "dex": di, "cls": c["name"], "name": m["name"],
+                                  "ret": m["ret"], "params": list(m["params"])}))
+    out, used = [], set()
+    pos = {d: k for k, d in enumerate(order)}
+    for n in range(rng.choice((1, 1, 2, 3))):
+        if not items:
+            break
+        tot = sum(w for w, _ in items)
+        x = rng.randrange(tot)
+        for w, it in items:
+            x -= w
+            if x < 0:
+                break
+        k = (it["kind"], it["dex"]) + _ren_key(it)
+        if k in used:
+            continue
+        used.add(k)
+        r = dict(it, new="ren%d_%s" % (n, it["name"].strip("<>")))
+        if it["kind"] == "field":
+            t = rng.choice(("before", "between", "between", "between", "after"))
+        else:
+            t = rng.choice(("before", "before", "after"))
+        r["when"] = ["at", rng.randrange(pos[it["dex"]], len(order))] if t == "between" else t
+        out.append(r)
+    return out
+
+
+def _find_items(vms_by_dex, renames):
+    objs = []
+    for r in renames:
+        vm = vms_by_dex[r["dex"]]
+        obj = None
+        for c in vm.get_classes():
+            if c.get_name() != r["cls"]:
+                continue
+            if r["kind"] == "field":
+                for f in c.get_fields():
+                    if f.get_name() == r["name"] and f.get_descriptor() == r["type"]:
+                        obj = f
+            else:
+                for m in c.get_methods():
+                    if m.get_name() == r["name"] and str(m.get_descriptor()) == desc_of(r["ret"], r["params"]):
+                        obj = m
+        objs.append(obj)
+    return objs
+
+
+def _map_view(v, renames):
+    """the keys of a view after renaming objects (identity-based): every occurrence of the old key"""
+    fm = {(r["cls"], r["name"], r["type"]): (r["cls"], r["new"], r["type"]) for r in renames if r["kind"] == "field"}
+    mm = {(r["cls"], r["name"], desc_of(r["ret"], r["params"])): (r["cls"], r["new"], desc_of(r["ret"], r["params"]))
+          for r in renames if r["kind"] == "method"}
+
+    def f(x):
+        if isinstance(x, tuple):
+            if x in fm:
+                return fm[x]
+            if x in mm:
+                return mm[x]
+            return tuple(f(y) for y in x)
+        return x
+    return {s: sorted(f(t) for t in v[s]) for s in SECTIONS if s != "strings"}
+
+
+def history_run(prog, order, renames):
+    """-> ('exc', type, msg) | (flat renamed program, (view, bad, fa) after create_xref, control) where
+    control = None or (section, detail) when the view after the 'after' renames is not the renamed view"""
+    try:
+        built = [build_dex(d) for d in prog]
+        vms_by_dex = load_vms([b for b, _ in built])
+        objs = _find_items(vms_by_dex, renames)
+        if any(o is None for o in objs):
+            return ("exc", "HarnessItemNotFound", repr(renames))
+        from androguard.core.analysis.analysis import Analysis
+        for r, o in zip(renames, objs):
+            if r["when"] == "before":
+                o.set_name(r["new"])
+        dx = Analysis()
+        for k, di in enumerate(order):
+            dx.add(vms_by_dex[di])
+            for r, o in zip(renames, objs):
+                if isinstance(r["when"], list) and r["when"][1] == k:
+                    o.set_name(r["new"])
+        dx.create_xref()
+        res = real_view(dx)
+        early = [r for r in renames if r["when"] != "after"]
+        late = [r for r in renames if r["when"] == "after"]
+        # a rename made earlier changes the key a later 'after' rename of the same DEX sees: items are distinct, keys too
+        px = apply_renames(prog, early)
+        fl = flat([px[i] for i in order], [built[i][1] for i in order])
+        control = None
+        if late:
+            for r, o in zip(renames, objs):
+                if r["when"] == "after":
+                    o.set_name(r["new"])
+            v2 = real_view(dx)[0]
+            want = _map_view(res[0], late)
+            for s in want:
+                if sorted(v2[s]) != want[s]:
+                    from harness import xref_oracle as O
+                    control = (s, O._first_diff(want[s], v2[s]))
+                    break
+        return fl, res, control
+    except Exception as e:  # noqa
+        import traceback
+        return ("exc", type(e).__name__, (str(e) + " | " + traceback.format_exc().strip().splitlines()[-3].strip())[:300])
+
+
+def history_work(args):
+    from harness import xref_oracle as O
+    prop, idx, prog, order, renames = args
+    sections = [s for s in PROP_SECTIONS[prop] if s != "strings"] if False else PROP_SECTIONS[prop]
+    case = {"prog": prog, "order": list(order), "history": renames}
+    out = history_run(prog, order, renames)
+    st = {"history_cases": 1}
+    for r in renames:
+        k = "history_%s_%s" % (r["kind"], r["when"] if isinstance(r["when"], str) else "between_add_and_xref")
+        st[k] = st.get(k, 0) + 1
+    if out[0] == "exc":
+        return idx, None, None, [(case, "the analysis raises %s after a supported rename" % out[1], None, "a finished analysis", out[2])], st
+    fl, res, control = out
+    v, bad, fa = res
+    I = Interner()
+    rq = request(fl, I)
+    rl = real_line(res, I, sections)
+    e = O.expected(fl)
+    found = (O.check_c13(e, v, bad) if prop == "C13" else O.check_c14(e, v, bad, fa) if prop == "C14"
+             else O.check_c15(e, v, bad) if prop == "C15" else [])
+    fails = [(case, what + " (names as they are when create_xref runs; history of renames in the case)", key, rel, detail)
+             for what, key, rel, detail in found[:4]]
+    if control is not None:
+        fails.append((case, "renaming an item after create_xref changed a cross-reference table", None, control[0], control[1]))
+    return idx, rq, rl, fails, st
+
+
+# probes of histories the random stream does not generate; each is one fixed case with a precise key
+def history_probes():
+    def m(name, code):
+        return {"name": name, "ret": "V", "params": [], "static": 0, "code": code + [["return-void", None, []]]}
+    prog = [{"strings": [], "classes": [
+        {"name": "LA;", "fields": [], "methods": [m("m", [["invoke-virtual", ["m", "LB;", "n", "V", []]]])]},
+        {"name": "LB;", "fields": [], "methods": [m("n", [["invoke-virtual", ["m", "LB;", "n", "V", []]]])]}]}]
+    return [("method-renamed-between-add-and-xref", prog,
+             [{"kind": "method", "dex": 0, "cls": "LB;", "name": "n", "ret": "V", "params": [], "new": "nn", "when": ["at", 0]}])]
+
+
+def probe_work(args):
+    """C13 only: add -> EncodedMethod.set_name on a defined method invoked from its own DEX -> create_xref"""
+    from harness import xref_oracle as O
+    key, prog, renames = args
+    case = {"prog": prog, "order": [0], "history": renames, "probe": key}
+    out = history_run(prog, [0], renames)
+    if out[0] == "exc":
+        return [(case, "the analysis raises %s after a supported rename" % out[1], None, "a finished analysis", out[2])]
+    fl, (v, bad, fa), _ = out
+    e = O.expected(fl)
+    found = O.check_c13(e, v, bad)
+    if not found:
+        return []
+    r = renames[0]
+    k = (r["cls"], r["new"], desc_of(r["ret"], r["params"]))
+    # the recorded shape: the renamed method is still internal, but __method_hashes keeps its add()-time name, so the
+    # invoke of the new name got a second, external, entry with the same key; every relation is otherwise as expected
+    shape = (sorted(v["methods"]) == sorted(e["methods"] + [(k, 1)]) and v["callTo"] == e["callTo"] and v["callFrom"] == e["callFrom"]
+             and all(b[0] == "method-hash" and b[1] == k for b in bad))
+    what, _, rel, detail = found[0]
+    return [(case, "after add -> EncodedMethod.set_name -> create_xref an invoke of the renamed, analysed method resolves to a new external stub: "
+             + what, key if shape else None, rel, detail)]
+
+
+def load_corpus_full(prop):
     import json
     from harness.fw import VERIF
     d = os.path.join(VERIF, "corpus", prop)
@@ -663,8 +916,12 @@ def load_corpus(prop):
     if os.path.isdir(d):
         for fn in sorted(os.listdir(d)):
             if fn.endswith(".json"):
-                out.append((fn, json.load(open(os.path.join(d, fn)))["prog"]))
+                out.append((fn, json.load(open(os.path.join(d, fn)))))
     return out
+
+
+def load_corpus(prop):
+    return [(fn, c["prog"]) for fn, c in load_corpus_full(prop) if "history" not in c]
 
 
 def shipped_cases(repo, quick):
@@ -738,13 +995,16 @@ def run_property(ck, prop):
     from harness.fw import Driver, REPO
     import time as _t
     t0 = _t.time()
+    ck.pins_changed(PINS)
     ck.run_gen("xrefops")
     ck.prove(exes=["drv_C13"])
     drv = Driver("drv_C13")
     t1 = _t.time()
     sections = PROP_SECTIONS[prop]
     all_orders = prop == "C16"
-    ngen = {"C13": (1500, 60000), "C14": (1500, 60000), "C15": (1500, 60000), "C16": (700, 30000)}[prop][0 if ck.quick else 1]
+    big = (not ck.quick) or ck.escalated
+    ngen = {"C13": (1500, 20000), "C14": (1500, 20000), "C15": (1500, 20000), "C16": (700, 8000)}[prop][1 if big else 0]
+    nhist = 0 if prop == "C16" else (6000 if big else 600)
     if ck.p_errors:
         ngen *= 2      # a broken obligation: search deeper for a concrete failing input
     cases = [("corpus:" + fn, p) for fn, p in load_corpus(prop)]
@@ -762,6 +1022,20 @@ def run_property(ck, prop):
         results = pool.map(work, [(prop, i, p, all_orders) for i, (_, p) in enumerate(cases)], chunksize=8)
         shipped = shipped_cases(REPO, ck.quick)
         sres = pool.map(shipped_work, [(prop, n, d) for n, d in shipped], chunksize=1)
+        # history stream: renames between add and create_xref (and before / after as controls)
+        hcases = []
+        for fn, cp in load_corpus_full(prop):
+            if "history" in cp:
+                hcases.append(("corpus:" + fn, cp["prog"], cp.get("order", list(range(len(cp["prog"])))), cp["history"]))
+        for i in range(nhist):
+            hp = gen_program(ck.rng, big=False)
+            od = list(range(len(hp)))
+            ck.rng.shuffle(od)
+            hh = gen_history(ck.rng, hp, od)
+            if hh:
+                hcases.append(("hist:%d" % i, hp, od, hh))
+        hres = pool.map(history_work, [(prop, i, p, od, hh) for i, (_, p, od, hh) in enumerate(hcases)], chunksize=8)
+        pres = pool.map(probe_work, history_probes(), chunksize=1) if prop == "C13" else []
     for idx, rq, rl, fails, st, nv in results:
         for a, b in zip(rq, rl):
             reqs.append(a); real.append(b)
@@ -780,6 +1054,20 @@ def run_property(ck, prop):
             ck.fail(case if isinstance(case, dict) else {"shipped": name}, what, key, exp, obs)
         for k, v in st.items():
             dist[k] = dist.get(k, 0) + v
+    for idx, rq, rl, fails, st in hres:
+        if rq is not None:
+            reqs.append(rq); real.append(rl)
+            req2case[rq] = {"prog": hcases[idx][1], "order": hcases[idx][2], "history": hcases[idx][3], "name": hcases[idx][0]}
+        nviews += 1
+        for case, what, key, exp, obs in fails:
+            ck.fail(dict(case, name=hcases[idx][0]), what, key, exp, obs)
+        for k, v in st.items():
+            dist[k] = dist.get(k, 0) + v
+    for fl_ in pres:
+        nviews += 1
+        dist["history_probes"] = dist.get("history_probes", 0) + 1
+        for case, what, key, exp, obs in fl_:
+            ck.fail(case, what, key, exp, obs)
     t2 = _t.time()
     model = [select(l, sections) for l in drv.ask(reqs)]
     ck.notes.append("wall: proof leg (incl. waiting for the build lock) %.0fs, real analysis + oracle %.0fs, model %.0fs"
@@ -818,7 +1106,25 @@ def replay_case(ck, rp, prop):
     from harness import xref_oracle as O
     c = rp.get("case") or rp.get("first_divergence", {}).get("case") or {}
     print("replay", {k: v for k, v in c.items() if k != "prog"})
-    if "prog" in c:
+    if "prog" in c and "history" in c:
+        print("history (renames):", c["history"], "add order", c.get("order"))
+        out = history_run(c["prog"], c.get("order", list(range(len(c["prog"])))), c["history"])
+        if out[0] == "exc":
+            print("  real: raises", out[1], out[2])
+        else:
+            fl, (v, bad, fa), control = out
+            e = O.expected(fl)
+            for s_ in PROP_SECTIONS[prop]:
+                print("  %-9s real %s" % (s_, v[s_]))
+                if s_ in e and e[s_] != v[s_]:
+                    print("  %-9s WANT %s" % ("", e[s_]))
+            if bad:
+                print("  identity problems:", bad[:5])
+            if prop == "C14":
+                print("  get_field_analysis:", fa)
+            if control:
+                print("  after-create_xref rename control:", control)
+    elif "prog" in c:
         prog = c["prog"]
         order = c.get("order", list(range(len(prog))))
         for label in ([order] if order != "merged" else []) + ["merged"] + ([c["against"]] if c.get("against") not in (None, "merged") else []):
